@@ -7,6 +7,10 @@ def call(m, **kw):
     c = dict(m=m, names=[], pat="", attrs=[], match="", noattrs=False, scope="", els=[], props=[],
              handler="", enum="", re="", schemes=[], scheme="", fid="", b=False, vals=[])
     c.update(kw)
+    # names are strings the specification compares with token names: same encoding as the tokens (identity for plain ASCII);
+    # regular expression sources and matcher ids stay as they are
+    for k in ("names", "attrs", "els", "props", "schemes", "vals"):
+        c[k] = [enc(x) for x in c[k]]
     return c
 
 def enc(s):
@@ -50,7 +54,7 @@ def fam_loop():
             r.append(call("AllowUnsafe", b=False))      # saying "no" explicitly must stay "no"
         if unskip: r.append(call("AllowElementsContent", names=["script", "style", "object"]))
         # elements that are allowed through a pattern AND listed in the skip-content set
-        if spaces != comments: r.append(call("SkipElementsContent", names=["custom-x", "x-y", "b"]))
+        if spaces != comments: r.append(call("SkipElementsContent", names=["custom-x", "x-y", "b", "donn\u00e9es"]))
         # an attribute rule with an empty attribute list on skip-content elements changes nothing
         if spaces and unskip: r.append(AA([], ["object", "title", "blink"]))
         recipes.append(r)
@@ -71,6 +75,7 @@ def fam_loop():
         "xmp": [(), (("class", "k"),)],              # raw-text element (allowed with attributes in some recipes)
         "d\u0130v": [(), (("title", "t"),)],           # look-alike of an allowed name (U+0130 lower-cases to ASCII i)
         "blink": [()],                               # unknown
+        "donn\u00e9es": [()],                           # unknown, non-ASCII name, in the skip set of some recipes
         "object": [()],                              # unknown, skip set
         "frame": [()],                               # unknown, skip set, void
         "script": [(), (("type", "t"),)],            # unsafe
@@ -81,7 +86,7 @@ def fam_loop():
     for n, avs in names.items():
         for a in avs:
             toks.append(tok("start", n, a))
-            if n not in ("title", "style", "frame", "x-caf\u00e9"):
+            if n not in ("title", "style", "frame", "x-caf\u00e9", "donn\u00e9es"):
                 toks.append(tok("self", n, a))
         toks.append(tok("end", n))
     toks += [tok("text", d="<i a=1>t&<x"), tok("comment", d="cmt"), tok("comment", d="[CDATA[x]]"), tok("doctype", d="html")]
@@ -160,6 +165,16 @@ def fam_url():
     attrs = {el: av(k, URLS) + av("class", ["k"]) for el, k in els.items()}
     return dict(name="url", recipes=recipes, tokens=[], attrs=attrs)
 
+def fam_urldup():
+    """C03: several URL attributes on one tag (the same name repeated, good and bad values in either order)."""
+    f = fam_url()
+    vals = ["http://example.org/a", "javascript:alert(1)", "vbscript:x", "/rel/path", "a b"]
+    els = {"a": "href", "img": "src", "q": "cite"}
+    f["attrs"] = {el: av(k, vals) + av("class", ["k"]) for el, k in els.items()}
+    f["recipes"] = [f["recipes"][i] for i in (0, 1, 4, 5, 7)]
+    f["name"] = "urldup"
+    return f
+
 def fam_forced():
     """C12: crossorigin and sandbox forcing."""
     els = ["audio", "img", "link", "video", "iframe", "span", "script"]
@@ -204,7 +219,7 @@ def fam_allow():
                        call("AllowStyles", props=["color"], scope="els", els=["b"])],   # style rules for ANOTHER element only
                [call("NewPolicy"), AA(["class", "title"], pat=".*", match=lower), call("AllowElementsMatching", pat="^b")]]
     alpha = (av("class", ["abc", "123", "a1", " 123", "abc\n", "\tabc "]) + av("id", ["x"]) + av("title", ["tt", "zz", "bx-x", "custom-y"]) + av("lang", ["en"]) +
-             av("onclick", ["x"]) + av("data-x", ["1"]) + av("data-a;b", ["1"]) + av("data-xmlq", ["1"]) + av("data-adata-;x", ["1"]) + av("data-data-xmlq", ["1"]) + av("x\"y", ["v"]) +
+             av("onclick", ["x"]) + av("data-x", ["1"]) + av("data-a;b", ["1"]) + av("data-xmlq", ["1"]) + av("data-adata-;x", ["1"]) + av("data-;x", ["1"]) + av("data-;", ["1"]) + av("data-data-xmlq", ["1"]) + av("x\"y", ["v"]) +
              av("href", ["/x"]) + av("style", ["color: red"]))
     # custom-x is also named explicitly (shadows the patterns); custom-b-x is reached through both patterns only
     els = ["span", "custom-x", "custom-y", "custom-b-x", "b", "a", "blink", "bx-x"]
@@ -264,7 +279,7 @@ def fam_conf():
             tok("start", "img", (("src", "/i.png"), ("alt", "x y"))), tok("start", "img", (("src", "HTTP://E.com/%7e"),)),
             tok("start", "custom-x"), tok("start", "custom-x", (("title", "t"), ("class", "k"))), tok("end", "custom-x"),
             tok("start", "q", (("cite", "http://e.com/x"),)), tok("end", "q"),
-            tok("start", "blink"), tok("self", "b"), tok("start", "b", (("data-x", "1"),)),
+            tok("start", "blink"), tok("self", "b"), tok("start", "b", (("data-x", "1"),)), tok("self", "custom-x"),
             tok("text", d="t&<x"), tok("text", d="a\rb"), tok("comment", d="cmt")]
     return dict(name="conf", recipes=recipes, tokens=toks)
 
@@ -273,7 +288,7 @@ def fam_ugc():
     recipes = [[call("UGCPolicy")], [call("StrictPolicy")]]
     js = "javascript:alert(1)"
     toks = [tok("start", "p"), tok("end", "p"), tok("start", "b"), tok("end", "b"),
-            tok("start", "a", (("href", "http://e.com/x"),)), tok("start", "a", (("href", js),)), tok("start", "a", (("href", "/r"), ("onclick", "x"), ("style", "color:red"))),
+            tok("start", "a", (("href", "http://e.com/x"),)), tok("start", "a", (("href", js),)), tok("start", "a", (("href", js), ("title", "x"))), tok("start", "a", (("href", "/r"), ("onclick", "x"), ("style", "color:red"))),
             tok("end", "a"), tok("start", "img", (("src", "/i.png"), ("alt", "x"))), tok("start", "img", (("src", "x"), ("onerror", "alert(1)"))),
             tok("start", "img", (("src", "data:image/png;base64,iVBORw0KGgo="),)),
             tok("start", "l\u0130", (("value", "3"),)), tok("start", "q", (("cite", "/caf\u00e9/menu"),)),
@@ -281,6 +296,8 @@ def fam_ugc():
             tok("start", "td", (("colspan", "2"),)), tok("end", "td"), tok("start", "table"), tok("end", "table"),
             tok("start", "del", (("cite", js),)), tok("start", "q", (("cite", "http://e.com/"),)), tok("end", "q"),
             tok("start", "script"), tok("end", "script"), tok("start", "style"), tok("end", "style"), tok("self", "script"),
+            tok("self", "input", (("id", "i"), ("type", "image"))), tok("self", "form", (("id", "f"),)), tok("self", "button"), tok("self", "meta", (("id", "m"),)),
+            tok("self", "iframe", (("id", "x"), ("src", "http://e.com"))),
             tok("start", "iframe", (("src", "http://e.com"),)), tok("end", "iframe"), tok("start", "object"), tok("end", "object"),
             tok("start", "svg"), tok("start", "math"), tok("start", "form"), tok("start", "input", (("type", "image"), ("src", js))),
             tok("start", "base", (("href", "//x"),)), tok("start", "meta"), tok("start", "link", (("rel", "stylesheet"), ("href", "x"))),
@@ -427,7 +444,22 @@ def fam_nestx():
             tok("text", d="<i a=1>t&<x"), tok("comment", d="cmt")]
     return dict(name="nestx", recipes=recipes, tokens=toks, wellnested=True)
 
-FAMS = dict(nestx=fam_nestx, nestw=fam_nestw, nest=fam_nest, css=fam_css, conc_zero=fam_conc_zero, conc=fam_conc, io=fam_io, policy=fam_policy, ugc=fam_ugc, conf=fam_conf, loop=fam_loop, loopq=fam_loopq, link=fam_link, url=fam_url, forced=fam_forced, allow=fam_allow, style=fam_style)
+def fam_nesty():
+    """Well-nested documents over elements that are reached (or must NOT be reached) through element patterns: a fully anchored
+    literal pattern and a name that merely contains the literal, an element that only has style rules on a pattern, pattern
+    elements in the skip set."""
+    def AS(props, scope, els=(), pat="", handler="", enum="", re=""):
+        return call("AllowStyles", props=list(props), scope=scope, els=list(els), pat=pat, handler=handler, enum=enum, re=re)
+    base = [call("NewPolicy"), call("AllowElements", names=["b"]), AA(["href"], ["a"]), AA(["class"], pat="^lit$"),
+            AA(["style"], []), AS(["color"], "pat", pat="^my-"), AA(["class"], pat="^custom-", noattrs=True)]
+    recipes = [base, base + [call("AddSpaceWhenStrippingTag", b=True), call("SkipElementsContent", names=["custom-x"])]]
+    toks = [tok("start", "a"), tok("start", "a", (("href", "/x"),)), tok("end", "a"),
+            tok("start", "lit", (("class", "k"),)), tok("end", "lit"), tok("start", "split", (("class", "k"),)), tok("end", "split"),
+            tok("start", "my-box", (("style", "color: red"),)), tok("end", "my-box"),
+            tok("start", "custom-x"), tok("end", "custom-x"), tok("start", "object"), tok("end", "object"), tok("text", d="<i a=1>t&<x")]
+    return dict(name="nesty", recipes=recipes, tokens=toks, wellnested=True)
+
+FAMS = dict(nesty=fam_nesty, urldup=fam_urldup, nestx=fam_nestx, nestw=fam_nestw, nest=fam_nest, css=fam_css, conc_zero=fam_conc_zero, conc=fam_conc, io=fam_io, policy=fam_policy, ugc=fam_ugc, conf=fam_conf, loop=fam_loop, loopq=fam_loopq, link=fam_link, url=fam_url, forced=fam_forced, allow=fam_allow, style=fam_style)
 
 if __name__ == "__main__":
     here = os.path.dirname(os.path.abspath(__file__))
